@@ -558,7 +558,9 @@ fn main() {
     }
     let (h1, st1) = dx::s2(&mut hsink, 16640, false);
     let (h2, st2) = dx::s2(&mut hsink, 65535, false);
-    hist_trans += st1 + st2;
+    // hand-built raw records of about 10 MiB as first fragments ("any sequence of calls")
+    let (_h4, st4) = dx::s4(&mut hsink);
+    hist_trans += st1 + st2 + st4;
     let _ = (h1, h2);
     for v in hsink.viol {
         if v.what.contains("panic") || v.what.contains(">= 10 MiB") || v.what.contains("buffer holds") {
@@ -592,7 +594,7 @@ fn main() {
     cov.insert("heap_bound".into(), json!(format!("{} + {} x input length (bytes), parse + Debug formatting, per call", HEAP_BASE, HEAP_PER_BYTE)));
     cov.insert("watchdog_limit_s".into(), json!(limit.as_secs()));
     cov.insert("rule".into(), json!(format!(
-        "every one of {} entry points (all pub fn parse_* / tls_parser* plus the derived Parse impls; explicit len / header arguments crossed over their boundary domains) on: its family's catalogue with every combination of <= {} deviations; every string of bounded length over the family's positional alphabet; all byte strings of length <= 2 over the full alphabet (<= 3 for five main parsers in the thorough tier); the undeviated encodings of every other family; SNI / ALPN extensions (alone and inside a ClientHello record) whose names are multi-byte UTF-8 sequences (2-, 3-, 4-byte and a dangling lead byte) at every alignment and every length 0..=600; 51 inputs of 16640 / 16641 / 65535 bytes made of the densest message kinds; every value (all 256 / 65536) of each of the 38 enumerated wire fields of C11 inside a well-formed structure through 12 top-level parsers (so that name tables and value-dependent formatting are exercised over complete domains). Every Ok value is formatted with {{:?}} and {{:#?}}. Plus every transition of the defragmenter exploration (S0, S1, S2). Built with overflow-checks and debug-assertions. Oracle: no unwinding, watchdog, peak heap bound. Non-trivial: not (Incomplete on an input of <= 4 bytes)",
+        "every one of {} entry points (all pub fn parse_* / tls_parser* plus the derived Parse impls; explicit len / header arguments crossed over their boundary domains) on: its family's catalogue with every combination of <= {} deviations; every string of bounded length over the family's positional alphabet; all byte strings of length <= 2 over the full alphabet (<= 3 for five main parsers in the thorough tier); the undeviated encodings of every other family; SNI / ALPN extensions (alone and inside a ClientHello record) whose names are multi-byte UTF-8 sequences (2-, 3-, 4-byte and a dangling lead byte) at every alignment and every length 0..=600; 51 inputs of 16640 / 16641 / 65535 bytes made of the densest message kinds; every value (all 256 / 65536) of each of the 38 enumerated wire fields of C11 inside a well-formed structure through 12 top-level parsers (so that name tables and value-dependent formatting are exercised over complete domains). Every Ok value is formatted with {{:?}} and {{:#?}}. Plus every transition of the defragmenter exploration (S0, S1, S2, S4: hand-built first fragments of about 10 MiB). Built with overflow-checks and debug-assertions. Oracle: no unwinding, watchdog, peak heap bound. Non-trivial: not (Incomplete on an input of <= 4 bytes)",
         ents.len(), d)));
     if !missing.is_empty() {
         println!("note: pub parse functions without a registry entry: {:?}", missing);
